@@ -180,6 +180,11 @@ BDD_OP_MUTS.update({
  'compute_same_var_as_sons_of_A': (B, "    if A.var == B.var:\n        return BDDsons_and_BDDsons(operator, A, B, ordering, r_cache)", "    if A.var == B.var:\n        return BDDsons_and_BDD(operator, A, B, ordering, r_cache)", ['compute']),
  'compute_order_test_flipped': (B, "    if (isinstance(B, BDDTerminalNode) or ordering.in_order(A.var, B.var)):\n        return BDDsons_and_BDD(operator, A, B, ordering, r_cache)", "    if (isinstance(B, BDDTerminalNode) or ordering.in_order(B.var, A.var)):\n        return BDDsons_and_BDD(operator, A, B, ordering, r_cache)", ['compute']),
 })
+BDD_OP_MUTS.update({
+ 'terminal_wrong_constant': (B, "            node.__reset__(value)\n", "            node.__reset__(not value)\n", ['BDDTerminalNode.__new__']),
+ 'terminal_not_recorded': (B, "            BDDTerminalNode.Tnodes[value] = node\n", "", ['BDDTerminalNode.__new__']),
+ 'terminal_reset_no_value': (B, "        super(BDDTerminalNode, self).__reset__()\n        self.value = value", "        super(BDDTerminalNode, self).__reset__()\n        self.value = True", ['BDDTerminalNode.__reset__']),
+})
 O = 'BDD/OBDD.py'
 BDD_OP_MUTS.update({
  'obdd_and_is_or': (O, "        return self.apply((lambda a, b: a and b), A)", "        return self.apply((lambda a, b: a or b), A)", ['OBDD.__and__']),
